@@ -834,8 +834,8 @@ func TestVerifC07(t *testing.T) {
 	e := &c07Env{t: t, art: art, root: filepath.Join(base, "snaps")}
 	pristine := filepath.Join(base, "pristine")
 
-	nShapes := vfScale(22, 260)
-	cutsPerShape := vfScale(7, 30)
+	nShapes := vfScale(18, 260)
+	cutsPerShapeBase := vfScale(6, 30)
 	var allOps, allImpl [][]string
 	for si := 0; si < nShapes; si++ {
 		var sh c07Shape
@@ -975,6 +975,18 @@ func TestVerifC07(t *testing.T) {
 				cuts = append(cuts, cutSpec{k: k, cut: c07Cut{kind: "n"}})
 			}
 		}
+		// directed cuts: inside the multi-WAL checkpoint with the LAST (and the first) WAL in the
+		// checkpoint position -- renamed only, and checkpointed but not yet removed
+		if len(p.Ops) > 0 && p.Ops[0].Type == plan.OpCheckpoint {
+			nw := len(p.Ops[0].WALs)
+			cuts = append(cuts,
+				cutSpec{k: 0, cut: c07Cut{kind: "c", j: nw - 1, stage: 1}},
+				cutSpec{k: 0, cut: c07Cut{kind: "c", j: nw - 1, stage: 2, zeroWal: r.Bool()}})
+			if nw > 1 {
+				cuts = append(cuts, cutSpec{k: 0, cut: c07Cut{kind: "c", j: r.Intn(nw - 1), stage: 1 + r.Intn(2)}})
+			}
+		}
+		cutsPerShape := cutsPerShapeBase + len(cuts)
 		for len(cuts) < cutsPerShape {
 			switch r.Intn(12) {
 			case 0:
